@@ -96,6 +96,17 @@ def rule_lp_bounds(ctx: Ctx, rule: str = "lp-free-bounds") -> None:
             if isinstance(node, ast.Call) and norm(node.func).split(".")[-1] in wrappers:
                 n += 1
                 ctx.ok(rule, fi.key, "LP call in %s goes through %s" % (fi.key, norm(node.func)), nontrivial=False)
+            is_partial = isinstance(node, ast.Call) and norm(node.func).split(".")[-1] == "partial" and node.args and norm(node.args[0]).endswith("linprog")
+            if is_partial:
+                # functools.partial(linprog, bounds=...): the LP call site with the fixed arguments
+                n += 1
+                b = [k.value for k in node.keywords if k.arg == "bounds"]
+                construct = "linprog call in %s has free variable bounds" % fi.key
+                if b and norm(b[0]).replace(" ", "") in ("(None,None)", "[(None,None)]"):
+                    ctx.ok(rule, fi.key, construct)
+                else:
+                    ctx.cannot_decide(rule, fi.key, construct, "linprog is wrapped by functools.partial without bounds: the bounds of the eventual call are not followed")
+                continue
             if isinstance(node, ast.Call) and norm(node.func).endswith("linprog"):
                 n += 1
                 b = [k.value for k in node.keywords if k.arg == "bounds"]
@@ -1217,10 +1228,16 @@ def rule_transform(ctx: Ctx, rule: str = "transform") -> None:
             okh = False
             if helpers is not None and helpers[0] == "bin" and helpers[1] == "BitOr" and ("param", "context") in (helpers[2], helpers[3]):
                 x = helpers[3] if helpers[2] == ("param", "context") else helpers[2]
+                # the working list: the one whose i-th term the rewritten term is stored into
+                tgt = stores[0]["target"]
+                working = tgt[1][1] if isinstance(tgt[1], tuple) and tgt[1][0] == "attr" and tgt[1][2] == "terms" else None
                 for e in p.events:
                     if e["kind"] == "call" and e["callee"] == ".remove" and e["recv"] == ("attr", x, "terms") and e["args"] == (term,):
                         if x[0] == "mcall" and x[1] == "copy":
-                            okh = True
+                            if working is None or x[2] == working:
+                                okh = True
+                            else:
+                                problems.append("the helpers are a copy of %s, not of the list being rewritten (%s): a term already rewritten must help in its rewritten form, or two terms are each justified by the other's original" % (show(x[2], 3), show(working, 3)))
                 # or: a new list built from the CURRENT terms with the term itself filtered out
                 if not okh and x[0] == "new" and x[2] and x[2][0][0] == "listcomp":
                     lc = x[2][0]
